@@ -405,6 +405,24 @@ def run(ses, rep):
     from .. import cfgorigin
     routes = cfgorigin.analyse(ses, rep)
     cfgorigin.confirm(rep, routes, "C20")
+    # an option written in a carrier only means something if the carrier that applies to a file is the one consulted for THAT file:
+    # the search kernels of C15 (per-directory caches, per-file editorconfig sections) decide this property as well
+    from . import c15
+    shared = []
+    for kern in (c15.search, c15.precedence, c15.per_file_configuration):
+        try:
+            shared += kern(ses, rep)
+        except Inconclusive as e:
+            rep.add(f"search/{kern.__name__}", "inconclusive", str(e)[:200], nontrivial=False)
+    if shared:
+        v1, rec1 = c15.replay_per_file()
+        sc, v2, rec2 = c15.battery() if not v1 else (None, None, None)
+        for oid, what, kind, info in shared:
+            v, rec = (v1, rec1) if v1 else (v2, rec2)
+            if v:
+                rep.add("search/" + oid, rep.violation({"obligation": "search/" + kind}, {"what": what, "observed": v, "replay_kind": "search", "run": rec}), f"{what}; {v}")
+            else:
+                rep.add("search/" + oid, "inconclusive", f"solver model ({what}) did not reproduce on the native build (configuration batteries)")
     rep.samples.append({"flagged": [(f[0], f[1]) for f in flagged + routes][:6]})
     if flagged:
         v, rec = carriers()
@@ -428,6 +446,11 @@ def fallback(rep):
 
 def replay(path):
     v, rec = carriers()
+    if not v:
+        from . import c15
+        v, _ = c15.replay_per_file()
+        if not v:
+            _sc, v, _ = c15.battery()
     if not v:
         from .. import cfgorigin
         fails = cfgorigin.battery(common.native_build("default"))
